@@ -14,6 +14,10 @@ RAW_FROM_BYTES = "stun_types::attribute::RawAttribute::<'a>::from_bytes"
 FROM_BYTES = "stun_types::message::Message::<'a>::from_bytes"
 ITER_NEXT = "<stun_types::message::MessageAttributesIter<'a> as std::iter::Iterator>::next"
 RESULT = "std::result::Result"
+VALIDATE = "stun_types::message::Message::<'a>::validate_integrity"
+PADDED_LEN = re.compile(r"^<stun_types::attribute::RawAttribute<'.*> as stun_types::attribute::AttributeExt>::padded_len$|AttributeExt>::padded_len\[.*RawAttribute")
+
+
 CLASSES = {"MI": 0x0008, "M2": 0x001C, "FP": 0x8028, "other": None}
 
 
@@ -52,6 +56,14 @@ def scripted_decoder(depth, classes=("other", "MI", "M2", "FP")):
         if not isinstance(data, Seq):
             return []
         event(c.st, "memory", i, bookkeeping(c))
+        # tiling: this decode starts where the previous attribute's padded extent ended (ghost kept by the padded_len hook)
+        w_ = data.content()
+        gn = c.st.cells.get("ghost:walk:next")
+        if isinstance(gn, Num) or gn is TOP:
+            ok_ = src_atom(w_) and isinstance(gn, Num) and c.st.sys.entails_eq(w_[1] - gn.e)
+            model.tiling.append((ok_, "attribute %d decoded at %r, previous padded extent ended at %r" % (i, w_, gn)))
+            c.st.cells["ghost:walk:off"] = Num(w_[1]) if src_atom(w_) else TOP
+            c.st.cells["ghost:walk:next"] = TOP
         out = []
         for cls in classes:
             st = c.st.copy()
@@ -77,7 +89,7 @@ def scripted_decoder(depth, classes=("other", "MI", "M2", "FP")):
             raw = Struct({0: Struct({0: Struct({0: ty}), 1: Num(ln)}), 1: Enum("stun_types::data::Data", {0: Struct({0: Struct({0: val})})})})
             out.append((st, Enum(RESULT, {0: Struct({0: raw})})))
         return out
-    model.inner, model.frontier = set(), set()
+    model.inner, model.frontier, model.tiling = set(), set(), []
     return model
 
 
@@ -111,8 +123,16 @@ def ending_automaton(prog, chk, rule="ending-automaton", depth=3):
 
     def setup(run, st):
         st.cells["ghost:script:i"] = Num(Lin.const(0))
+        st.cells["ghost:walk:next"] = Num(Lin.const(20))
+        st.cells["ghost:walk:off"] = TOP
+
+    def post_padded(it, st, fr, ret):
+        go = st.cells.get("ghost:walk:off")
+        if isinstance(ret, Num) and isinstance(go, Num):
+            st.cells["ghost:walk:next"] = Num(go.e + ret.e)
     dec = scripted_decoder(depth)
-    r = Run(prog, FROM_BYTES, track_content=True, bool_vars=False, max_parts=20000, setup=setup, local_models={RAW_FROM_BYTES: dec})
+    r = Run(prog, FROM_BYTES, track_content=True, bool_vars=False, max_parts=20000, setup=setup, local_models={RAW_FROM_BYTES: dec},
+            hooks={k_: post_padded for k_ in prog.bodies if PADDED_LEN.search(k_)})
     if r.error or not r.results:
         chk.fail(rule, "analysis", detail=r.error or "no return state")
         return
@@ -128,7 +148,7 @@ def ending_automaton(prog, chk, rule="ending-automaton", depth=3):
             while isinstance(p_, Struct) and len(p_.f) == 1:
                 p_ = p_.get(0)
             pay = (st, p_)
-        by_seq.setdefault(seq, []).append((res, kind, pay, st))
+        by_seq.setdefault(seq, []).append((res, kind, pay, st, ret))
     n = 0
     seqs = sorted(by_seq, key=lambda s: (len(s), s))
     order_kinds = ("AttributeAfterIntegrity", "AttributeAfterFingerprint")
@@ -162,6 +182,14 @@ def ending_automaton(prog, chk, rule="ending-automaton", depth=3):
                     problems.append("refused as %s where %s is required" % (sorted({o[1] for o in bad}), spec[2]))
             elif spec[1] < len(seq) - 1:
                 problems.append("the walk continues past attribute %d (%s), which had to be refused" % (spec[1], seq[spec[1]]))
+        # acceptance only when the attributes tile the whole buffer: the last padded extent ends at the buffer's end
+        for o in oks:
+            st_ = o[3]
+            gn = st_.cells.get("ghost:walk:next")
+            rv = o[4]
+            dseq = rv.v[0].get(0).get(0) if isinstance(rv, Enum) and 0 in rv.v and isinstance(rv.v[0].get(0), Struct) else None
+            if not (isinstance(gn, Num) and isinstance(dseq, Seq) and st_.sys.entails_eq(gn.e - dseq.len)):
+                problems.append("accepted although the attributes are not shown to end exactly at the end of the buffer (next %r, length %r)" % (gn, dseq.len if isinstance(dseq, Seq) else None))
         # an accepted sequence ending in FINGERPRINT passed the CRC comparison
         if oks and "FP" in seq:
             for o in oks:
@@ -181,6 +209,9 @@ def ending_automaton(prog, chk, rule="ending-automaton", depth=3):
     chk.ob(rule, "exactly the class sequences up to length %d whose proper prefixes are well ordered were explored" % depth, not missing and not extra, body.loc(),
            detail="not explored: %s; explored beyond a refusal: %s" % (missing[:4], extra[:4]), how="%d sequences" % len(seqs))
     chk.floor(rule + "-sequences", n, len(expected))
+    bad_t = [d for ok_, d in dec.tiling if not ok_]
+    chk.ob("tiling", "Message::from_bytes: every attribute is decoded where the previous one's padded extent ended, the first at offset 20", bool(dec.tiling) and not bad_t, body.loc(),
+           detail="; ".join(bad_t[:2]), how="ghost of the expected next offset checked at each of %d scripted decodes" % len(dec.tiling))
     if depth >= 5:
         # beyond the bound: what the walk remembers before decoding attribute number depth-1 / depth was already
         # seen before an earlier attribute, so longer sequences only revisit explored situations (the next step depends
@@ -310,3 +341,54 @@ def exposure_transducer(prog, chk, rule="exposure", depth=3):
     chk.floor(rule + "-rows", n_rows, 12)
     chk.ob(rule, "the situations reached are the three of the specification (before integrity, directly after MESSAGE-INTEGRITY, after integrity)", sorted(set(seen_states.values())) == [(False, False), (True, False), (True, True)],
            body.loc(), detail=repr(seen_states))
+
+
+# ------------------------------------------------------------------------------------------------ tiling of a walk
+
+def tiling_walk(prog, chk, rule, key, content_id, start, label):
+    """Every decode of one attribute in `key` starts where the previous attribute's padded extent ended, the first one at
+    `start` (a constant, or the name of the usize field of `self` that holds the cursor), over the content `content_id`.
+    Decided inductively: two ghosts (offset of the last decode, padded length of the attribute it returned) are kept across
+    the loop's joins, and at every decode the argument window must start at their sum."""
+    body = prog.bodies.get(key)
+    if body is None:
+        chk.fail(rule, "%s not found" % label)
+        return
+    checks = []
+
+    def pre_decode(it, st, fr, args):
+        d = args[0]
+        n = 0
+        while isinstance(d, Ref) and n < 4:
+            d = it.load(st, d.cell, d.path)
+            n += 1
+        w = d.content() if isinstance(d, Seq) else None
+        gn = st.cells.get("ghost:walk:next")
+        ok = src_atom(w) and w[0] == content_id and isinstance(gn, Num) and st.sys.entails_eq(w[1] - gn.e)
+        checks.append((ok, "window %r where the previous attribute's padded extent ended at %r" % (w, gn)))
+        st.cells["ghost:walk:off"] = Num(w[1]) if src_atom(w) else TOP
+        st.cells["ghost:walk:next"] = TOP
+
+    def post_padded(it, st, fr, ret):
+        go = st.cells.get("ghost:walk:off")
+        if isinstance(ret, Num) and isinstance(go, Num):
+            st.cells["ghost:walk:next"] = Num(go.e + ret.e)
+    pad_keys = [k_ for k_ in prog.bodies if PADDED_LEN.search(k_)]
+
+    def setup(run, st):
+        if isinstance(start, int):
+            st.cells["ghost:walk:next"] = Num(Lin.const(start))
+        else:
+            sv = st.cells.get(run.self_cell)
+            names = [f["name"] for f in prog.adts[ITER_ADT]["variants"][0]["fields"]]
+            v = sv.get(names.index(start)) if isinstance(sv, Struct) and start in names else None
+            st.cells["ghost:walk:next"] = v if isinstance(v, Num) else TOP
+        st.cells["ghost:walk:off"] = TOP
+    r = Run(prog, key, track_content=True, bool_vars=False, path_sensitive=False, setup=setup, max_parts=4000,
+            pre_hooks={RAW_FROM_BYTES: pre_decode}, hooks={k_: post_padded for k_ in pad_keys})
+    if r.error:
+        chk.fail(rule, "%s|analysis" % label, detail=r.error)
+        return
+    bad = [d for ok, d in checks if not ok]
+    chk.ob(rule, "%s: every attribute is decoded where the previous one's padded extent ended, the first at %s" % (label, start), bool(checks) and not bad, body.loc(),
+           detail="; ".join(bad[:2]), how="E2 with two ghosts kept across the loop (inductive), %d decode call contexts" % len(checks))
